@@ -134,3 +134,30 @@ func BadContinueWhile(x float64) float64 {
 	}
 	return x
 }
+
+// a recursive closure with a result
+func BadRecResult(n int) int {
+	var fact func(k int) int
+	fact = func(k int) int {
+		if k <= 1 {
+			return 1
+		}
+		return k * fact(k-1)
+	}
+	return fact(n)
+}
+
+// a recursive closure used as a value
+func BadRecEscape(n int) int {
+	total := 0
+	var f func(k int)
+	f = func(k int) {
+		if k > 0 {
+			total += k
+			f(k - 1)
+		}
+	}
+	g := f
+	g(n)
+	return total
+}
